@@ -68,6 +68,52 @@ def _dft_axis(x, axis, n_out, sign, n_in_logical=None):
     return np.moveaxis(out, -1, axis)
 
 
+class LazySpec:
+    """rfftn(x, s) kept in real space: the half spectrum of x zero-padded/truncated to shape s.  Only the product of two
+    such spectra followed by irfftn(., s) is given a meaning (convolution theorem):
+        irfftn(rfftn(a, s) * rfftn(b, s), s) = circular convolution of the zero-padded a and b on the grid s."""
+
+    _symx_passthrough = True
+
+    def __init__(self, x, s):
+        self.x = x
+        self.s = tuple(int(v) for v in s)
+        self.shape = self.s[:-1] + (self.s[-1] // 2 + 1,)
+
+    def __mul__(self, o):
+        if isinstance(o, LazySpec):
+            if o.s != self.s:
+                raise Unsupported("product of spectra on different grids")
+            return LazyProd(self, o)
+        raise Unsupported("product of a lazy half-spectrum with something that is not a half-spectrum (use mode='exact-eager')")
+
+    __rmul__ = __mul__
+
+
+class LazyProd:
+    _symx_passthrough = True
+
+    def __init__(self, a, b):
+        self.a, self.b = a, b
+        self.s = a.s
+        self.shape = a.shape
+
+
+def circular_convolve(a, b, s):
+    """direct circular convolution of object arrays a, b (zero padded to s); b is expected to be the small operand"""
+    a = np.asarray(a, dtype=object)
+    b = np.asarray(b, dtype=object)
+    out = np.empty(s, dtype=object)
+    out.fill(0)
+    nz_b = [(idx, b[idx]) for idx in np.ndindex(b.shape) if not (isinstance(b[idx], (int, float)) and b[idx] == 0)]
+    nz_a = [(idx, a[idx]) for idx in np.ndindex(a.shape) if not ((isinstance(a[idx], (int, float)) or hasattr(a[idx], "numerator")) and a[idx] == 0)]
+    for ia, va in nz_a:
+        for ib, vb in nz_b:
+            k = tuple((i + j) % n for i, j, n in zip(ia, ib, s))
+            out[k] = out[k] + va * vb
+    return out.view(A.SymArray)
+
+
 class FFTStub:
     def __init__(self, mode="opaque"):
         self.mode = mode
@@ -140,6 +186,12 @@ class FFTStub:
     def rfftn(self, x, s=None, axes=None, **kw):
         if axes is not None:
             raise Unsupported("rfftn with axes")
+        if self.mode == "exact" and s is not None:
+            # the only use of rfftn(x, s) in acryo is FFT convolution: keep it lazy (convolution theorem)
+            xin0 = self._as_obj(x)
+            out = LazySpec(xin0, s)
+            self.calls.append(("rfftn", x, s, out))
+            return out
         xin = self._pad_to(x, s)
         half = xin.shape[:-1] + (xin.shape[-1] // 2 + 1,)
         if self.mode == "opaque":
@@ -155,6 +207,12 @@ class FFTStub:
     def irfftn(self, y, s=None, axes=None, **kw):
         if axes is not None:
             raise Unsupported("irfftn with axes")
+        if isinstance(y, LazyProd):
+            if s is None or tuple(int(v) for v in s) != y.s:
+                raise Unsupported("irfftn of a spectral product on a different grid")
+            out = circular_convolve(y.a.x, y.b.x, y.s)
+            self.calls.append(("irfftn", y, s, out))
+            return out
         yin = self._as_obj(y)
         if s is None:
             m = yin.shape[-1]
